@@ -40,7 +40,8 @@ RTP channel = the media's channel, client channels go in steps of two, client de
 then payload type, single in-order consumer, `ring.Close()` discards, `Pull` stops when closed, `Push`
 ignores `closed`, the reliable-mode receiver passes every packet through, a channel pair is in use when a
 set-up media sits on c-1, c or c+1, the server picks the first free even pair, an explicit pair is checked,
-`readPacketRTP` (server and client) always keeps the UDP read buffer. -/
+`readPacketRTP` (server and client) always keeps the UDP read buffer, a PLAY while playing neither replaces the
+writer nor re-activates, the MIKEY CS-ID map lists every SSRC of the media with its rollover counter. -/
 theorem code_shape :
     (Facts.Pipe.ssrcRewrittenByStream && Facts.Pipe.fanoutOverActiveUnicastReaders &&
      Facts.Pipe.fanoutErrorGoesToHandler && Facts.Pipe.writeUnderStreamRLock &&
@@ -53,7 +54,9 @@ theorem code_shape :
      Facts.Pipe.pullStopsWhenClosed && Facts.Pipe.pushIgnoresClosed &&
      Facts.Pipe.reliableReceiverPassesThrough && Facts.Pipe.channelPairInUseThreeCases &&
      Facts.Pipe.freeChannelPairFirstEven && Facts.Pipe.explicitChannelPairChecked &&
-     Facts.Pipe.serverFormatKeepsReadBuffer && Facts.Pipe.clientFormatKeepsReadBuffer) = true ∧
+     Facts.Pipe.serverFormatKeepsReadBuffer && Facts.Pipe.clientFormatKeepsReadBuffer &&
+     Facts.Pipe.playCreatesWriterOnlyWhenNotPlaying && Facts.Pipe.playActivatesOnlyWhenNotPlaying &&
+     Facts.Pipe.mikeyAnnouncesEverySSRC) = true ∧
     Facts.Pipe.interleavedMagic = 36 := by decide
 
 /-- **Isolation.**  A reader's state depends only on the writes and on its own events: what the other
@@ -239,6 +242,15 @@ theorem not_active_not_delivered (cfg : Cfg) (kinds : List Bool) (pre post : Lis
 theorem discards_only_by_own_pause (cfg : Cfg) (kinds : List Bool) (es : List Event) (r : Nat) (hr : r < kinds.length)
     (hnd : ∀ e ∈ view r es, ¬ Discards e) : (reader cfg kinds es r).disc = [] := by
   rw [reader_isolation cfg kinds es r hr, disc_eq cfg _ _ hnd]
+
+/-- **A PLAY while the reader is already playing changes nothing** (the server allows a second PLAY):
+not the queue, not what is in flight, not the activity — so every theorem above holds across it, and
+delivery simply goes on.  The same for any PLAY that does not find the reader in PrePlay. -/
+theorem second_play_is_noop (cfg : Cfg) (kinds : List Bool) (es : List Event) (r : Nat)
+    (h : (reader cfg kinds es r).status ≠ .setup) :
+    rctl cfg (reader cfg kinds es r) .play = reader cfg kinds es r := by
+  generalize reader cfg kinds es r = x at h
+  cases hs : x.status <;> simp_all [rctl]
 
 /-- **What a PAUSE / close can forfeit is bounded by the queue**: each of the reader's own discarding
 events adds at most `cap` packets to `disc` (plus, for the close of a reliable reader, the frames still in
@@ -478,5 +490,8 @@ position `j wid = wid`, no restart was detected -/
 example : Numbered (reader exCfg [false, true] exUdp 1) (0, 97) 30 (fun wid => wid) ∧
     (∀ o ∈ (Recv.run R0 (keyArr (0, 97) 0 (reader exCfg [false, true] exUdp 1).arrived)).2, o.restart = false) := by
   unfold Numbered; decide
+
+/-- the hypothesis of `second_play_is_noop` holds after the third event of `exEvents` (reader 0 playing) -/
+example : (reader exCfg [false, true] (exEvents.take 3) 0).status ≠ .setup := by decide
 
 end Rtsp.C01
